@@ -9,7 +9,7 @@ from . import cxxtypes as T
 FUNC_KINDS = ('FunctionDecl', 'CXXMethodDecl', 'CXXConstructorDecl', 'CXXConversionDecl', 'CXXDestructorDecl')
 REC_KINDS = ('CXXRecordDecl', 'ClassTemplateSpecializationDecl', 'ClassTemplatePartialSpecializationDecl')
 
-NS_STRIP = re.compile(r'\b(?:rlbox|detail|std|__cxx11|__gnu_cxx|tainted_detail|callback_detail|compile_time_for_detail|'
+NS_STRIP = re.compile(r'\b(?:rlbox|detail|std|__cxx11|__gnu_cxx|[a-z_]+_detail|tainted_detail|callback_detail|compile_time_for_detail|'
                       r'convert_fn_ptr_to_sandbox_equivalent_detail|vinst|polyfill)::')
 
 
